@@ -705,6 +705,99 @@ pub fn check_vanish(c: &SelfCase) -> Verdict {
 }
 
 // ---------------------------------------------------------------------------
+// any auxiliary-vector content the kernel file can hold
+// ---------------------------------------------------------------------------
+
+#[derive(Debug, Clone, PartialEq, Eq, Hash, Serialize, Deserialize)]
+pub struct AuxvFileCase {
+    /// (key selector, value selector, raw) pairs in file order
+    pub pairs: Vec<(u8, u8, u64)>,
+    /// AT_NULL terminator written at the end
+    pub terminated: bool,
+    /// bytes cut off the end of the file (a pair is 16 bytes)
+    pub cut: u8,
+    pub threads: u8,
+    pub sanitize: bool,
+    pub skip: bool,
+}
+
+pub fn check_auxv_file(c: &AuxvFileCase) -> Verdict {
+    use crate::vcore::dest::Dest;
+    use crate::vcore::target::*;
+    use crate::vcore::world::*;
+    init_scratch();
+    let scratch = Target::new_scratch();
+    let mut b = Builder::new();
+    for i in 0..(c.threads % 3) {
+        let st = b.add_stack(2, true, 90 + i as u64);
+        b.add_thread(K_PARKED, Some(format!("a{i}").into_bytes()), st.base + 0x1000, 800 + i as u64);
+    }
+    let spec = b.spec.clone();
+    let file = scratch.join("auxv-content");
+    let t = match Target::spawn(&spec, scratch) {
+        Ok(t) => t,
+        Err(e) => return Verdict::Inconclusive(format!("target setup: {}", e.split(':').next().unwrap_or(""))),
+    };
+    if !t.wait_settled(&spec) {
+        return Verdict::Inconclusive("target did not settle".into());
+    }
+    let truth = crate::props::c01::true_auxv(t.pid); // phnum, phdr, gate, entry
+    let maps = crate::props::fid::parse_maps(&t.maps_text().unwrap_or_default());
+    let mut bytes: Vec<u8> = vec![];
+    for (k, v, raw) in &c.pairs {
+        // AT_PHDR 3, AT_PHNUM 5, AT_ENTRY 9, AT_SYSINFO_EHDR 33, AT_NULL 0, AT_PAGESZ 6, anything
+        let key: u64 = [3, 5, 9, 33, 0, 6, *raw, 3, 5, 9, 33][*k as usize % 11];
+        let true_val = match key {
+            3 => truth[1],
+            5 => truth[0],
+            9 => truth[3],
+            33 => truth[2],
+            _ => 4096,
+        };
+        let val: u64 = match *v % 10 {
+            0 | 1 | 2 => true_val,
+            3 => 0,
+            4 => 1,
+            5 => u64::MAX,
+            6 => 0x3000_0000_0000,
+            7 => maps.get(*raw as usize % maps.len().max(1)).map(|l| l.start + (*raw >> 8) % (l.end - l.start)).unwrap_or(0),
+            8 => true_val.wrapping_add(*raw % 4096),
+            _ => *raw,
+        };
+        bytes.extend_from_slice(&key.to_le_bytes());
+        bytes.extend_from_slice(&val.to_le_bytes());
+    }
+    if c.terminated {
+        bytes.extend_from_slice(&[0u8; 16]);
+    }
+    let keep = bytes.len().saturating_sub(c.cut as usize % 24);
+    bytes.truncate(keep);
+    if std::fs::write(&file, &bytes).is_err() {
+        return Verdict::Inconclusive("cannot write the auxv content".into());
+    }
+    let opts = DumpOpts { blamed: t.pid, sanitize: c.sanitize, skip_unreferenced: c.skip, principal: if c.skip { Some(truth[3]) } else { None }, ..Default::default() };
+    let mut w = make_writer(t.pid, &opts);
+    let mut dest = Dest::new(vec![], 0);
+    let (out, redirected) = crate::vcore::faultfs::with_redirected_path(b"/auxv", &file, || with_watchdog(30.0, || run_dump(&mut w, &mut dest)));
+    let mut classes = vec![];
+    if redirected == 0 {
+        return Verdict::Inconclusive("the auxv file was never opened".into());
+    }
+    match out {
+        DumpOutcome::Ok(_) => classes.push("ok".to_string()),
+        DumpOutcome::Err(e) => classes.push(format!("err:{}", e.split('(').next().unwrap_or(""))),
+        DumpOutcome::Panic(loc, msg) => return panic_verdict(&loc, &msg),
+    }
+    if bytes.len() % 16 != 0 {
+        classes.push("file-ends-inside-a-pair".into());
+    }
+    if !c.terminated {
+        classes.push("no-terminator".into());
+    }
+    Verdict::pass_c(Some(fp_json(c)), classes)
+}
+
+// ---------------------------------------------------------------------------
 // hostile memory-map texts (names the kernel can report) through the parser the dumper uses
 // ---------------------------------------------------------------------------
 
@@ -798,6 +891,19 @@ pub fn run(ctx: &mut LaneCtx) {
     );
     ctx.run_sub(
         SubSpec {
+            name: "kernel-auxv-content",
+            cases: (480, 20_000),
+            rule: "live targets whose /proc/<pid>/auxv the dumper sees with generated content (open shim redirecting to a file the harness wrote): 0..12 pairs with keys from {AT_PHDR, AT_PHNUM, AT_ENTRY, AT_SYSINFO_EHDR, AT_NULL, AT_PAGESZ, arbitrary} - also repeated or absent - and values from {true, 0, 1, u64::MAX, unmapped, inside any mapping of the target, true + offset, arbitrary}, with or without terminator, the file cut 0..23 bytes short (ending inside a pair), x sanitize x skip-unreferenced; oracle = Ok or Err within the watchdog, no panic; every case non-trivial; distinct = hash of case",
+            strategy: (proptest::collection::vec((any::<u8>(), any::<u8>(), any::<u64>()), 0..13), proptest::bool::weighted(0.7), prop_oneof![2 => Just(0u8), 1 => any::<u8>()], 0u8..3, any::<bool>(), any::<bool>())
+                .prop_map(|(pairs, terminated, cut, threads, sanitize, skip)| AuxvFileCase { pairs, terminated, cut, threads, sanitize, skip })
+                .boxed(),
+            max_shrink_iters: 200,
+            log_current: true,
+        },
+        check_auxv_file,
+    );
+    ctx.run_sub(
+        SubSpec {
             name: "dev-rule",
             cases: (160, 6_000),
             rule: "targets mapping 1..4 files that live under /dev/shm (>= 4096 bytes, offset 0, executable or not; content valid ELF with id and SONAME / with id but without SONAME / without id / non-ELF / ELF with unreadable program headers; optionally unlinked) with an inotify watch (IN_OPEN|IN_ACCESS) installed on each after the target finished mapping; oracle = no inotify event during the dump; non-trivial = at least one watched file; distinct = hash of case",
@@ -861,6 +967,7 @@ pub fn replay(sub: &str, case: &Value) -> Verdict {
         "live-hostile" => replay_case::<crate::props::c01::Case>(case, check_live),
         "arena-hostile-elf" => replay_case::<crate::props::c14::KitCase>(case, check_arena_elf),
         "dev-rule" => replay_case::<DevCase>(case, check_dev),
+        "kernel-auxv-content" => replay_case::<AuxvFileCase>(case, check_auxv_file),
         "self-dump" => replay_case::<SelfCase>(case, check_self),
         "vanishing-target" => replay_case::<SelfCase>(case, check_vanish),
         "degenerate-targets" => replay_case::<DegCase>(case, check_degenerate),
